@@ -70,6 +70,7 @@ IMPORTS = {
     ],
     "C19": [
         ("C14", ["C14.T1"], "the base derives (Serialize, Deserialize, Debug, Clone) survive the assembly of the derive list whatever extra derives the user adds"),
+        ("C14", ["C14.W2"], "the derives a type carries are the patch lookup's result joined with the emitter's own additions: a patched type keeps the trait surface of its kind"),
     ],
     "C16": [
         ("C06", ["C06.W1"], "every entry created by a call is finalised by that call: the definitions do not depend on which call happened to create a shared sub-type"),
